@@ -117,6 +117,7 @@ def specs(n: int):
                      arr(lambda i, j: (G[i, j] + G[j, i]) * Fraction(1, 2),
                          n, n)),
         "div": ([field(grad=G)], _sum(G[i, i] for i in R)),
+        "div_hdiv": ([field(div=Poly.sym("divu"))], Poly.sym("divu")),
         "grad": ([field(grad=G)], G),
         "identity": ([A], arr(lambda i, j: Poly.const(1 if i == j else 0),
                               n, n)),
@@ -148,6 +149,7 @@ IMPL = {
     "transpose": ("transpose", ("np", "jax")), "eye": ("eye", ("np", "jax")),
     "det": ("det", ("np", "jax")), "sym_grad": ("sym_grad", ("np", "jax")),
     "div": ("div", ("np", "jax")), "grad": ("grad", ("np", "jax")),
+    "div_hdiv": ("div", ("np", "jax")),
     "cross": ("cross", ("np",)), "curl": ("curl", ("np",)),
     "curl_scalar": ("curl", ("np",)), "identity": ("identity", ("np",)),
 }
@@ -224,6 +226,21 @@ def _field_operators(model, rep):
                          f"integrand the user wrote and the residual / "
                          f"Jacobian that are differentiated are different "
                          f"functions", fn.lineno)
+    # completeness: whatever can stand on the left of an operator can stand
+    # on its right, and the unary minus exists - otherwise the same
+    # integrand assembles as 'u + 1.0' and raises TypeError as '1.0 + u'
+    for name in ("__add__", "__radd__", "__sub__", "__rsub__", "__mul__",
+                 "__rmul__", "__truediv__", "__rtruediv__", "__neg__"):
+        cons = f"JaxDiscreteField.{name}:defined"
+        if name in cls.methods:
+            rep.ok(R4, cons, "defined")
+        else:
+            rep.fail(R4, cls.path, "JaxDiscreteField", cons,
+                     f"the field wrapper defines no {name}: an integrand "
+                     f"written with the field on that side of the operator "
+                     f"({table[name][0]}) raises TypeError although the "
+                     f"mirrored spelling assembles and the NumPy forms "
+                     f"accept both", cls.node.lineno)
     if n < 12:
         raise AnalysisError(f"only {n} operator obligations on "
                             f"JaxDiscreteField")
@@ -347,6 +364,39 @@ def _helper_dtypes(model, rep):
                              f"dropped (the helper no longer computes its "
                              f"mathematical definition over the input's "
                              f"field)", node.lineno)
+    # true division into a buffer made 'like' the (possibly integer) input
+    for mod in ("skfem.helpers", "skfem.autodiff.helpers"):
+        m = model.module(mod)
+        for fn in model.all_functions():
+            if fn.module is not m:
+                continue
+            like = {}
+            for node in ast.walk(fn.node):
+                if isinstance(node, ast.Assign) and len(node.targets) == 1 \
+                        and isinstance(node.targets[0], ast.Name) and \
+                        isinstance(node.value, ast.Call) and ast.unparse(
+                            node.value.func).split(".")[-1] in (
+                            "zeros_like", "empty_like", "ones_like") and \
+                        not any(k.arg == "dtype"
+                                for k in node.value.keywords):
+                    like[node.targets[0].id] = node
+            for node in ast.walk(fn.node):
+                if isinstance(node, ast.Assign) and isinstance(
+                        node.targets[0], ast.Subscript) and isinstance(
+                        node.targets[0].value, ast.Name) and \
+                        node.targets[0].value.id in like and any(
+                        isinstance(x, ast.BinOp) and isinstance(x.op, ast.Div)
+                        for x in ast.walk(node.value)):
+                    buf = node.targets[0].value.id
+                    rep.fail(R5, fn.path, fn.short(),
+                             f"{mod.rsplit('.', 1)[0].split('.')[-1]}."
+                             f"{fn.name}:{buf}:quotients-into-like-buffer",
+                             f"'{ast.unparse(like[buf])}' takes the dtype "
+                             f"of the input, then quotients are stored into "
+                             f"it: for an integer tensor every entry of the "
+                             f"result is truncated towards zero (inv of "
+                             f"diag(2, 4) is the zero matrix)", node.lineno)
+                    break
     rep.ok(R5, "helpers:dtype", f"{n} helper functions: results take the "
            f"dtype of their input (no fixed real dtype)")
 
@@ -450,6 +500,9 @@ def run(model: Model, rep, tier: str) -> None:
 _H, _J = "skfem/helpers.py", "skfem/autodiff/helpers.py"
 _AD = "skfem/autodiff/__init__.py"
 MUTANTS = [
+    ("inverse accumulated in a buffer of the input's dtype",
+     (_H, "    invA = zeros_like(A, dtype=np.result_type(A, 1.))",
+      "    invA = zeros_like(A)"), "C20-R5"),
     ("autodiff: energy branch selected by the presence of the flag",
      (_AD, "            if self.params.get('hessian', False):",
       "            if 'hessian' in self.params:"), "C20-R3"),
@@ -458,8 +511,8 @@ MUTANTS = [
       "    out = transpose(u.grad)\n    out += u.grad\n    out *= .5\n"
       "    return out"), "C20-R6"),
     ("numpy inv allocates a float64 result",
-     ("skfem/helpers.py", "    invA = zeros_like(A)\n",
-      "    invA = zeros_like(A, dtype=np.float64)\n"), "C20-R5"),
+     ("skfem/helpers.py", "    invA = zeros_like(A, dtype=np.result_type(A, "
+      "1.))\n", "    invA = zeros_like(A, dtype=np.float64)\n"), "C20-R5"),
     ("reflected division written like the direct one",
      (_AD, "            return other.value / self.value\n"
       "        return other / self.value",
